@@ -37,6 +37,11 @@ func (t *T) ownOnly(x int)    { t.n = x; t.buf = append(t.buf[:0], byte(x)) }
 func writeParam(b []byte)     { b[0] = 1 }
 func readOnly(b []byte) int   { return int(b[0]) + table[0] }
 func spawn(c chan int)        { go func() { c <- 1 }() }
+func statefulOption(p [4]int) func(int) { return func(i int) { p[i&3] = i } }
+func statelessOption(p [4]int) func(*T)  { return func(t *T) { t.n = p[0] } }
+func (t *T) keep(b []byte)    { t.buf = b[1:] }
+func (t *T) keepVia(b []byte) { t.keep(b) }
+func (t *T) copyIn(b []byte)  { t.buf = append([]byte(nil), b...) }
 `
 
 type effectsControl struct {
@@ -100,6 +105,18 @@ func (c *Ctx) checkEffectsControl() {
 		}
 		return false
 	}
+	hasRetain := func(fn string) bool {
+		f := ec.fn[fn]
+		if f == nil {
+			return false
+		}
+		for _, rt := range ec.a.RetainsOf(f) {
+			if rt.Param == 1 && rt.Into.Kind == "param" && rt.Into.Name == "0" {
+				return true
+			}
+		}
+		return false
+	}
 	var missing []string
 	want := func(ok bool, what string) {
 		if !ok {
@@ -112,6 +129,29 @@ func (c *Ctx) checkEffectsControl() {
 	want(hasEscape("T.aliasGlobal", "store"), "package-level slice stored into an object")
 	want(hasEscape("returnGlobal", "return"), "reslice of a package-level slice returned")
 	want(hasWrite("writeParam", "param", "0"), "store through a slice parameter")
+	want(hasRetain("T.keep"), "a slice parameter stored into the receiver")
+	want(hasRetain("T.keepVia"), "a slice parameter stored into the receiver by a callee")
+	want(!hasRetain("T.copyIn") && !hasRetain("T.ownOnly"), "a method that copies its argument reported as retaining it")
+	closureWrites := func(fn string) (int, bool) {
+		f := ec.fn[fn]
+		if f == nil {
+			return 0, false
+		}
+		n, w := 0, false
+		for _, mc := range returnedClosures(f) {
+			n++
+			for _, x := range ec.a.WritesOf(mc.Fn.(*ssa.Function)) {
+				if x.Root.Kind == "freevar" {
+					w = true
+				}
+			}
+		}
+		return n, w
+	}
+	n1, w1 := closureWrites("statefulOption")
+	n2, w2 := closureWrites("statelessOption")
+	want(n1 == 1 && w1, "a returned closure that writes its captured variable")
+	want(n2 == 1 && !w2, "a returned closure that only reads its captured variable reported as stateful")
 	// negatives: the detectors must stay silent on code that does none of it
 	want(!hasWrite("readOnly", "param", "0") && !hasWrite("readOnly", "global", ""), "a read-only function reported as writing")
 	want(!hasWrite("T.ownOnly", "global", "") && !hasEscape("T.ownOnly", "store"), "a method writing only its receiver reported as touching package-level state")
